@@ -20,6 +20,7 @@ type CrawlOpts struct {
 	NoBadSeeds  bool
 	RateLimit   int  // 0: sometimes, 1: always, -1: never
 	Ports       bool // some origins listen on an explicit non-default port
+	Rotation    bool // 1 MB WARC files and enough incompressible bytes to fill several: the writer rotates files during the crawl
 	BigBodies   bool // large spooled text bodies cut mid-transfer (C16)
 	ManyHosts   int  // extra seeds on distinct hosts that answer 429 (C16: limiter table bound)
 }
@@ -124,6 +125,9 @@ func (c *crawlGen) asset(host, owner string, level int, maxRetry int, seencheck 
 	if c.o.BigBodies && c.Chance(1, 6) {
 		kind = 16
 	}
+	if c.o.Rotation && c.Chance(1, 2) {
+		kind = 17
+	}
 	if c.o.Prop == "C13" && c.Chance(1, 3) {
 		kind = 7 // a throttling asset in the middle of a page: the assets after it enter the limiter for the same host
 	}
@@ -196,6 +200,10 @@ func (c *crawlGen) asset(host, owner string, level int, maxRetry int, seencheck 
 		r := c.res(host, p, owner, level, Must, Response{Fault: "reset-body", Status: 200, Headers: H("Content-Type", "text/plain"), Body: Pad(4400000+c.N(400000), c.Uid())}, OK("text/plain", Pad(300, c.Uid()))) // the origin sends half of it (> 2 MiB, so already spooled to disk) and resets
 		r.Tags["faulty"] = "reset-body-big"
 		return `<link rel="prefetch" href="` + p + `">`
+	case 17: // a few hundred KB that do not compress (fills 1 MB WARC files quickly)
+		p := "/blob/" + name + ".bin"
+		c.res(host, p, owner, level, Must, OK("application/octet-stream", Bin(300000+c.N(250000), c.Uid())))
+		return `<img src="` + p + `">`
 	case 13: // asset that redirects to a fresh asset
 		p := "/moved/" + name + ".png"
 		tp := "/final/" + name + ".png"
@@ -521,6 +529,9 @@ func GenCrawl(t *Tape, o CrawlOpts) *Scenario {
 	cfg.Seencheck = !c.Chance(1, 4)
 	cfg.PoolSize = 1 + c.N(3)
 	cfg.OnDisk = c.Chance(1, 6)
+	if o.Rotation {
+		cfg.WARCSizeMB = 1
+	}
 	cfg.DisableLocalDedupe = c.Chance(1, 3)
 	cfg.DedupeSize = c.PickInt(1024, 1024, 64, 2048)
 	switch c.N(4) {
